@@ -285,6 +285,14 @@ def c12(tier):
         cases.append({"id": "mut:%d" % i, "files": {"g.lox": data, gofn: go}, "want": ""})
     for i, txt in enumerate(grammar_derived(rng, 150 if quick else 3000)):
         cases.append({"id": "gen:%d" % i, "files": {"g.lox": txt.encode("utf-8", errors="replace"), "parser.go": GOOD_GO}, "want": ""})
+    # the well-formed base specification of C17 and every single-fault variant of it (multi-file, modes, macros, cycles ...)
+    import props_wellformed as WF
+    bare_go = "package wfpkg\n\ntype Token struct{ Ty int }\n\ntype P struct{ lox }\n"
+    for vid, spec, fault in WF.variants():
+        files, _ = WF.render(spec)
+        files = dict(files)
+        files["p.go"] = bare_go
+        cases.append({"id": "wf:" + vid, "files": files, "want": ""})
     log("C12: %d inputs (%d configurations)" % (len(cases), ncfg))
     done = pmap(lambda a: run_case(sc, lox, a[0], a[1]), list(enumerate(cases)))
     # a timeout under a loaded machine is not a hang: re-run those alone before believing it
